@@ -317,6 +317,16 @@ def _run_point(case, ctx):
             ls[j] = 0.0
     else:
         ls = gen.increasing(r, n, 0.01, 20.0)
+    if case["seed"] % 5 == 3 and n >= 5:
+        # increasing pressures, loadings that are not monotone: a reading on the plateau 0.2 % below its predecessor, or an excess
+        # isotherm past its maximum (the integral is that of the interpolant through the points as they are paired)
+        k_ = r.randint(2, n - 2)
+        if r.random() < 0.5:
+            ls[k_] = ls[k_ - 1] * 0.998
+        else:
+            for j in range(k_, n):
+                ls[j] = ls[k_ - 1] * (1 - 0.03 * (j - k_ + 1))
+        ctx.count("point_histories", "loadings-not-monotone")
     if case["seed"] % 5 == 1:
         # whole-number loadings delivered as integers (molecule counts of a simulation)
         ls = [int(k) for k in numpy.cumsum([r.randint(1, 4) for _ in range(n)])]
